@@ -29,6 +29,66 @@ def design_check(rep, module, cfgs, timeout, expect_cex=()):
             rep.broken.append("%s: expected a counterexample (vacuity / deviation guard), got none\n%s" % (name, r.out[-600:]))
 
 
+OBS_KEYS = ("obs", "res")
+
+
+def _leaves(node, path=(), keys=OBS_KEYS):
+    """paths to the scalar leaves below any observation key of a recorded trace"""
+    if isinstance(node, dict):
+        for k in sorted(node):
+            for x in _leaves(node[k], path + (k,), keys):
+                yield x
+    elif isinstance(node, list):
+        for i, v in enumerate(node):
+            for x in _leaves(v, path + (i,), keys):
+                yield x
+    elif any(k in keys for k in path if isinstance(k, str)):
+        yield path
+
+
+def _corrupt(trace, path):
+    t = json.loads(json.dumps(trace))
+    node = t
+    for k in path[:-1]:
+        node = node[k]
+    v = node[path[-1]]
+    if isinstance(v, bool):
+        node[path[-1]] = not v
+    elif isinstance(v, int):
+        node[path[-1]] = v + 7
+    elif isinstance(v, str):
+        node[path[-1]] = v + "~"
+    else:
+        return None
+    return t
+
+
+def selftest_from(rep, trace_module, trace_cfg, traces, res, keys=OBS_KEYS, extra_env=None):
+    """pick the largest of the first accepted traces and self-test the trace specification on it"""
+    ok = [t for t, x in zip(traces, res) if x["matched"] == x["wanted"] and not x.get("devs")][:50]
+    if ok and "selftest" not in rep.cov:
+        selftest(rep, trace_module, trace_cfg, max(ok, key=lambda t: len(json.dumps(t))), extra_env, keys=keys)
+
+
+def selftest(rep, trace_module, trace_cfg, trace, extra_env=None, tries=8, keys=OBS_KEYS):
+    """The binding is real only if the trace specification constrains what was observed: an accepted execution
+    with one observed value falsified must be rejected.  Several single-field corruptions of one accepted trace
+    are validated; fields the specification deliberately ignores may pass, but not all of them."""
+    paths = list(_leaves(trace, (), keys))
+    if not paths:
+        return
+    step = max(1, len(paths) // tries)
+    cands = [c for c in (_corrupt(trace, p) for p in paths[step // 2::step][:tries]) if c is not None]
+    if not cands:
+        return
+    res, _ = tlc.validate_traces(trace_module, trace_cfg, cands, 600, extra_env)
+    rejected = sum(1 for c, x in zip(cands, res) if x["matched"] != x["wanted"])
+    rep.cov["selftest"] = dict(corrupted_observations=len(cands), rejected=rejected)
+    if rejected == 0:
+        rep.broken.append("self-test: %d single-field corruptions of an accepted trace were all accepted by %s - the trace "
+                          "specification does not constrain the observations" % (len(cands), trace_module))
+
+
 def generate(rep, gen_module, gen_cfg, num, depth, seed, allvars=False, timeout=600):
     sims, out, wall = tlc.simulate(gen_module, gen_cfg, num, depth, seed, timeout=timeout, allvars=allvars)
     if not sims:
@@ -88,4 +148,7 @@ def validate(rep, pid, module_name, trace_module, trace_cfg, traces, describe=No
                 n += 1
         rep.cov["rejected_traces"] = rep.cov.get("rejected_traces", 0) + len(bad)
     rep.cov["traces_validated_against_impl"] = (rep.cov.get("traces_validated_against_impl") or 0) + len(ok)
+    if ok and "selftest" not in rep.cov:
+        longest = max(ok[:50], key=lambda t: len(json.dumps(t)))
+        selftest(rep, trace_module, trace_cfg, longest, extra_env)
     return ok
